@@ -50,8 +50,22 @@ def ml_str(s):
 
 
 def case_ml(c):
-    return ("{ sc_id = z (%d); sc_q = %s; sc_ctx = %s; sc_sql = %s; sc_tree = %s; sc_re = %s; sc_pf = %s; sc_jg = %s; sc_dbs = %s }"
-            % (c["id"], c["ast_ml"], c["ctx_ml"], ml_str(c["sql"][0]), c["tree_ml"], c["re_ml"], c["pf_ml"], c.get("jg_ml") or "[]", c["dbs_ml"]))
+    return ("{ sc_id = z (%d); sc_q = %s; sc_ctx = %s; sc_sql = %s; sc_tree = %s; sc_re = %s; sc_pf = %s; sc_jg = %s; sc_rg = %s; sc_dbs = %s }"
+            % (c["id"], c["ast_ml"], c["ctx_ml"], ml_str(c["sql"][0]), c["tree_ml"], c["re_ml"], c["pf_ml"], c.get("jg_ml") or "[]",
+               c.get("rg_ml") or "[]", c["dbs_ml"]))
+
+
+def recases_ml(rows):
+    """the expressions of the regexp-stage search with what the planner's grammar made of them (hook VerifParseRe):
+    the extracted transcription model/LogqlRegexp.v re_plan must give the same answer on each"""
+    items = []
+    for r in rows:
+        if r.get("go_ok"):
+            want = "Some (%s, [%s])" % (ml_str(r.get("stripped") or ""), "; ".join(ml_str(n) for n in (r.get("impl_names") or [])))
+        else:
+            want = "None"
+        items.append("(%s, %s)" % (ml_str(r["re"]), want))
+    return "let recases : (char list * (char list * char list list) option) list = [\n " + ";\n ".join(items) + "]\n"
 
 
 def unhex(h):
@@ -98,12 +112,12 @@ def ocaml_eval_bytecode(ck, name, cases_ml, timeout=1500):
     return rc, out
 
 
-def eval_sem(ck, name, cases):
+def eval_sem(ck, name, cases, recases=None):
     """{id: {"c": [fragment,width,ctx_ok,text_ok,model_sel], "dbs": [{...}]}} via the extracted check_case"""
-    chunks = []
+    chunks = [recases_ml(recases or [])]
     for k in range(0, len(cases), 25):
         chunks.append("let chunk%d = [\n " % (k // 25) + ";\n ".join(case_ml(c) for c in cases[k:k + 25]) + "]\n")
-    txt = "".join(chunks) + "let cases = List.concat [" + "; ".join("chunk%d" % i for i in range(len(chunks))) + "]\n"
+    txt = "".join(chunks) + "let cases = List.concat [" + "; ".join("chunk%d" % i for i in range(len(chunks) - 1)) + "]\n"
     rc, out = ocaml_eval_bytecode(ck, name, txt)
     if rc != 0:
         return None, out
@@ -121,6 +135,8 @@ def eval_sem(ck, name, cases):
             res[int(p[1])]["dbs"][int(p[2])]["want"] = parse_rows(p[3] if len(p) > 3 else "")
         elif p[0] == "G":
             res[int(p[1])]["dbs"][int(p[2])]["got"] = parse_rows(p[3] if len(p) > 3 else "")
+        elif p[0] == "R" and recases is not None:
+            recases[int(p[1])]["model_same"] = p[2] == "1"
     return res, out
 
 
@@ -149,7 +165,7 @@ def pipeline(ck, tag, cases, ndb):
     return [json.loads(l) for l in open(c)], ""
 
 
-def run_semantic(ck, text_cases):
+def run_semantic(ck, text_cases, recases=None):
     if not ck.go_build("logqlsem") or not ck.go_build("logqlsql"):
         ck.obligation("harness logqlsem / logqlsql build against the repository", False, ck.build_out[-1500:])
         return
@@ -208,7 +224,7 @@ def run_semantic(ck, text_cases):
     res = {}
     shard = 1000
     for k in range(0, len(usable), shard):
-        r, out = eval_sem(ck, "c07sem", usable[k:k + shard])
+        r, out = eval_sem(ck, "c07sem", usable[k:k + shard], recases if k == 0 else None)
         if r is None:
             ck.obligation("failing-input search evaluated by the extracted model", False, out[-2500:])
             return
@@ -219,6 +235,7 @@ def run_semantic(ck, text_cases):
     nontrivial = set()
     not_text_ok, machinery, undecided, violations, findings_hit = [], [], [], [], {}
     theorem_evals = 0
+    per_class = {}     # class -> [guarded evaluations, non-trivial ones, evaluations where the reference keeps a line]
     for cid, v in res.items():
         c = byid[cid]
         if not v["ctx_ok"]:
@@ -240,6 +257,11 @@ def run_semantic(ck, text_cases):
                 nontrivial.add(json.dumps([c["query"], c["ctx"], db], sort_keys=True))
             if guards:
                 theorem_evals += 1
+                for k2 in set(c.get("class") or ["plain-selector"]):
+                    pc = per_class.setdefault(k2, [0, 0, 0])
+                    pc[0] += 1
+                    pc[1] += 1 if 0 < d["nwant"] < d["nsamples"] else 0
+                    pc[2] += 1 if d["nwant"] > 0 else 0
                 if d["model"] != 0:
                     machinery.append((c, k, "the model's SELECT is not the reference answer inside the guards (contradicts logql_log_partial[_parsers]): verdict %d" % d["model"]))
             bad = d["impl"] == 1 or d["rev"] == 1
@@ -295,12 +317,14 @@ def run_semantic(ck, text_cases):
     for cid in res:
         for k in set(byid[cid].get("class") or ["plain-selector"]):
             classes[k] = classes.get(k, 0) + 1
-    ck.extra["input_distribution"] = {"semantic_search_query_classes (a query counts once per class it has)": classes,
-                                      "fragment (no parser/drop)": sum(1 for v in res.values() if v["fragment"]),
-                                      "fragment2 (json/drop, any order)": sum(1 for v in res.values() if v["fragment2"])}
+    ck.extra.setdefault("input_distribution", {}).update({
+        "semantic_search_query_classes (a query counts once per class it has)": classes,
+        "fragment (no parser/drop)": sum(1 for v in res.values() if v["fragment"]),
+        "fragment2 (json/regexp/drop, any order)": sum(1 for v in res.values() if v["fragment2"])})
     ck.extra["sem_cases"] = {"evaluated_cases": len(res), "skipped": skipped,
                              "origins": {o: sum(1 for i in res if origin.get(i) == o) for o in ("gen", "text", "corpus")},
                              "guarded_evaluations": theorem_evals,
+                             "guarded_evaluations_per_class [all, reference keeps some lines and drops others, reference keeps a line]": per_class,
                              "finding_hits": {k: len(x) for k, x in findings_hit.items()}}
     samples = []
     for cid, v in list(res.items())[:400]:
@@ -311,16 +335,40 @@ def run_semantic(ck, text_cases):
     ck.add_samples(samples)
 
 
-def run_regroups(ck):
-    """the `| regexp` stage: the label names the planner pairs with the capture groups of the expression it sends,
-    against Go's regexp (group i = i-th opening parenthesis), on generated expressions with nested / mixed groups"""
+def gen_regroups(ck):
+    """the expressions of the regexp-stage search (harness logqlsem --mode regroups)"""
+    if not ck.go_build("logqlsem"):
+        return None
     out_f = os.path.join(ck.work, "regroups.jsonl")
-    n = ck.n(400, 20000)
+    n = ck.n(500, 20000)
     rc, out = ck.go_run("logqlsem", ["--mode", "regroups", "--seed", ck.seed, "--n", n, "--out", out_f])
     if rc != 0:
         ck.obligation("harness logqlsem --mode regroups ran", False, out[-1500:])
+        return None
+    return [json.loads(l) for l in open(out_f) if l.strip()]
+
+
+def run_regroups(ck, rows):
+    """the `| regexp` stage: the label names the planner pairs with the capture groups of the expression it sends,
+    against Go's regexp (group i = i-th opening parenthesis), on generated expressions with nested / mixed groups;
+    and the planner's grammar against its Coq transcription (re_plan) on the same expressions and on damaged ones"""
+    if rows is None:
         return
-    rows = [json.loads(l) for l in open(out_f) if l.strip()]
+    judged = [r for r in rows if "model_same" in r]
+    differ = [r for r in judged if not r["model_same"]]
+    ck.obligation("regexp stage: the transcribed grammar (model/LogqlRegexp.v re_plan: expression sent, label names, error) agrees with "
+                  "ParserPlanner.parseRe / String / collectGroupNames on every generated expression (%d, %d of them damaged; %d rejected by both)"
+                  % (len(judged), sum(1 for r in judged if r["class"] == "malformed"), sum(1 for r in judged if not r.get("go_ok"))),
+                  judged and not differ and len(judged) == len(rows),
+                  "%d differ; first: %r -> Go %s" % (len(differ), differ[0]["re"] if differ else "",
+                                                    (differ[0].get("stripped"), differ[0].get("impl_names")) if differ and differ[0].get("go_ok") else "error"))
+    if differ:
+        w = min(differ, key=lambda r: len(r["re"]))
+        ck.violation({"property": "C07", "kind": "the planner's regexp-stage grammar left its Coq transcription",
+                      "query": w["query"], "expression": w["re"], "go_accepts": w.get("go_ok"), "expression_sent": w.get("stripped"),
+                      "names_in_sql": w.get("impl_names"),
+                      "expected_is": "model/LogqlRegexp.v re_plan: the text with every (?P<name> replaced by ( and the names in the order of the opening parentheses",
+                      "replay": "harness logqlsem --mode regroups; clickhouse_planner.VerifParseRe(expression)"})
     hist = {}
     for r in rows:
         hist[r["class"]] = hist.get(r["class"], 0) + 1
@@ -402,5 +450,6 @@ def run(ck):
         ck.obligations.pop()
         time.sleep(5)
         cases = sqltext.run_logql(ck, n_quick=1000, n_thorough=40000)
-    run_semantic(ck, cases)
-    run_regroups(ck)
+    rows = gen_regroups(ck)
+    run_semantic(ck, cases, rows)
+    run_regroups(ck, rows)
